@@ -56,12 +56,18 @@ pub enum OverMount {
     BindDirOn(String, String),
     /// bind `src` over `dst`; `dst` may be a symlink / magic-link (mounted through an O_PATH|O_NOFOLLOW descriptor)
     BindFileOnLink(String, String),
+    /// bind the symlink / magic-link `src` itself (not its target) over `dst`
+    BindLinkOnLink(String, String),
 }
 
 pub fn bind_over(src: &str, dst: &str) -> Result<(), i32> {
+    bind_over2(src, dst, false)
+}
+
+pub fn bind_over2(src: &str, dst: &str, src_nofollow: bool) -> Result<(), i32> {
     // mount over exactly `dst` (never its target): go through a no-follow O_PATH descriptor
     let d = openat_raw(libc::AT_FDCWD, dst.as_bytes(), libc::O_PATH | libc::O_NOFOLLOW, 0)?;
-    let s = match openat_raw(libc::AT_FDCWD, src.as_bytes(), libc::O_PATH, 0) {
+    let s = match openat_raw(libc::AT_FDCWD, src.as_bytes(), libc::O_PATH | if src_nofollow { libc::O_NOFOLLOW } else { 0 }, 0) {
         Ok(s) => s,
         Err(e) => {
             close(d);
@@ -98,6 +104,7 @@ pub fn apply_overmounts(plans: &[OverMount]) -> Vec<String> {
         let r = match p {
             OverMount::TmpfsOn(d) => tmpfs_on(d),
             OverMount::BindDirOn(s, d) | OverMount::BindFileOnLink(s, d) => bind_over(s, d),
+            OverMount::BindLinkOnLink(s, d) => bind_over2(s, d, true),
         };
         log.push(format!("{:?}: {}", p, match r { Ok(()) => "ok".to_string(), Err(e) => errno_name(e) }));
     }
@@ -123,6 +130,10 @@ pub enum MKind {
     Tmpfs,
     BindForeign,
     BindProcfs,
+    /// a foreign symlink whose relative body ("1") resolves inside procfs
+    BindSymlink,
+    /// a procfs symlink (/proc/self) or magic-link (/proc/1/cwd) as the mount source
+    BindProcLink,
 }
 
 #[derive(Clone, Debug, Serialize, Deserialize)]
@@ -139,7 +150,7 @@ pub fn strategy() -> impl Strategy<Value = Case> {
     (
         prop_oneof![3 => Just(HKind::New), 2 => Just(HKind::Fsmount), 2 => Just(HKind::OpenTree), 2 => Just(HKind::OpenTreeRecursiveBefore), 2 => Just(HKind::OpenTreeRecursiveAfter), 3 => Just(HKind::PlainOpen), 2 => Just(HKind::CApi)],
         prop_oneof![3 => Just(Kcfg::Full), 3 => Just(Kcfg::NoOpenat2), 1 => Just(Kcfg::NoFsopen), 2 => Just(Kcfg::NoMountApi), 2 => Just(Kcfg::NoOpenat2NoMountApi), 1 => Just(Kcfg::NoOpenat2NoFsopen)],
-        vec((any::<u16>(), prop_oneof![Just(MKind::Tmpfs), Just(MKind::BindForeign), Just(MKind::BindProcfs)]), 1..=4),
+        vec((any::<u16>(), prop_oneof![2 => Just(MKind::Tmpfs), 2 => Just(MKind::BindForeign), 2 => Just(MKind::BindProcfs), 2 => Just(MKind::BindSymlink), 1 => Just(MKind::BindProcLink)]), 1..=4),
         vec((any::<u16>(), prop_oneof![3 => Just(POp::Open), 3 => Just(POp::OpenFollow), 2 => Just(POp::Readlink)], 0u8..4), 4..=16),
     )
         .prop_map(|(handle, kcfg, mounts, requests)| Case { handle, kcfg, mounts, requests })
@@ -296,6 +307,7 @@ pub fn child(case: &Case) -> Report {
         return rep;
     }
     let sb = Sandbox::create("c06");
+    let _ = std::os::unix::fs::symlink("1", sb.outside().join("evil"));
     // a stable descriptor whose magic-link can be over-mounted and requested
     {
         let f = openat_raw(libc::AT_FDCWD, b"/etc", libc::O_RDONLY | libc::O_DIRECTORY, 0).unwrap_or(-1);
@@ -333,15 +345,17 @@ pub fn child(case: &Case) -> Report {
             }
             let plan = match (ty, mk) {
                 ('d', MKind::Tmpfs) => OverMount::TmpfsOn(dst),
-                ('d', MKind::BindForeign) => OverMount::BindDirOn(sb.outside().join("dir").to_string_lossy().to_string(), dst),
-                ('d', MKind::BindProcfs) => OverMount::BindDirOn("/proc/1".to_string(), dst),
+                ('d', MKind::BindForeign) | ('d', MKind::BindSymlink) => OverMount::BindDirOn(sb.outside().join("dir").to_string_lossy().to_string(), dst),
+                ('d', MKind::BindProcfs) | ('d', MKind::BindProcLink) => OverMount::BindDirOn("/proc/1".to_string(), dst),
                 (_, MKind::BindProcfs) => OverMount::BindFileOnLink("/proc/version".to_string(), dst),
+                (_, MKind::BindSymlink) => OverMount::BindLinkOnLink(sb.outside().join("evil").to_string_lossy().to_string(), dst),
+                (_, MKind::BindProcLink) => OverMount::BindLinkOnLink(if *sel & 1 == 0 { "/proc/self" } else { "/proc/1/cwd" }.to_string(), dst),
                 (_, _) => OverMount::BindFileOnLink(sb.outside().join("secret.f").to_string_lossy().to_string(), dst),
             };
             plans.push((e.clone(), plan));
         }
         // sources are identified before anything is covered
-        let mount_sources: Vec<Ident> = ["/proc/1", "/proc/version"].iter().filter_map(|p| fstatat(libc::AT_FDCWD, p.as_bytes(), true).ok().map(|s| s.id)).chain([sb.outside().join("dir"), sb.outside().join("secret.f")].iter().filter_map(|p| fstatat(libc::AT_FDCWD, p.as_os_str().as_encoded_bytes(), true).ok().map(|s| s.id))).collect();
+        let mount_sources: Vec<Ident> = ["/proc/1", "/proc/version"].iter().filter_map(|p| fstatat(libc::AT_FDCWD, p.as_bytes(), true).ok().map(|s| s.id)).chain([sb.outside().join("dir"), sb.outside().join("secret.f"), sb.outside().join("evil")].iter().filter_map(|p| fstatat(libc::AT_FDCWD, p.as_os_str().as_encoded_bytes(), true).ok().map(|s| s.id))).collect();
         for (e, plan) in plans {
             let log = apply_overmounts(&[plan]);
             if log[0].ends_with(": ok") {
@@ -654,7 +668,7 @@ pub fn race_strategy() -> impl Strategy<Value = RaceCase> {
         prop_oneof![2 => Just(Kcfg::Full), 2 => Just(Kcfg::NoOpenat2), 1 => Just(Kcfg::NoFsopen), 3 => Just(Kcfg::NoMountApi), 4 => Just(Kcfg::NoOpenat2NoMountApi), 1 => Just(Kcfg::NoOpenat2NoFsopen)],
         (any::<u16>(), prop_oneof![3 => Just(POp::Open), 1 => Just(POp::Readlink)], 0u8..4),
         any::<u16>(),
-        prop_oneof![Just(MKind::Tmpfs), Just(MKind::BindForeign), Just(MKind::BindProcfs)],
+        prop_oneof![2 => Just(MKind::Tmpfs), 2 => Just(MKind::BindForeign), 2 => Just(MKind::BindProcfs), 2 => Just(MKind::BindSymlink), 1 => Just(MKind::BindProcLink)],
     )
         .prop_map(|(handle, kcfg, request, target, mkind)| RaceCase { handle, kcfg, request, target, mkind, only: None })
 }
@@ -784,6 +798,7 @@ pub fn race_child(case: &RaceCase) -> RaceReport {
         return rep;
     }
     let sb = Sandbox::create("c06r");
+    let _ = std::os::unix::fs::symlink("1", sb.outside().join("evil"));
     {
         let f = openat_raw(libc::AT_FDCWD, b"/etc", libc::O_RDONLY | libc::O_DIRECTORY, 0).unwrap_or(-1);
         let d = unsafe { libc::fcntl(f, libc::F_DUPFD_CLOEXEC, 200) };
@@ -842,15 +857,17 @@ pub fn race_child(case: &RaceCase) -> RaceReport {
         let is_dir = fstatat(libc::AT_FDCWD, dst.as_bytes(), true).map(|s| s.ftype() == libc::S_IFDIR).unwrap_or(false);
         let plan = match (is_dir, case.mkind) {
             (true, MKind::Tmpfs) => OverMount::TmpfsOn(dst.clone()),
-            (true, MKind::BindForeign) => OverMount::BindDirOn(sb.outside().join("dir").to_string_lossy().to_string(), dst.clone()),
-            (true, MKind::BindProcfs) => OverMount::BindDirOn("/proc/1".to_string(), dst.clone()),
+            (true, MKind::BindForeign) | (true, MKind::BindSymlink) => OverMount::BindDirOn(sb.outside().join("dir").to_string_lossy().to_string(), dst.clone()),
+            (true, MKind::BindProcfs) | (true, MKind::BindProcLink) => OverMount::BindDirOn("/proc/1".to_string(), dst.clone()),
             (false, MKind::BindProcfs) => OverMount::BindFileOnLink("/proc/version".to_string(), dst.clone()),
+            (false, MKind::BindSymlink) => OverMount::BindLinkOnLink(sb.outside().join("evil").to_string_lossy().to_string(), dst.clone()),
+            (false, MKind::BindProcLink) => OverMount::BindLinkOnLink(if case.target & 1 == 0 { "/proc/self" } else { "/proc/1/cwd" }.to_string(), dst.clone()),
             (false, _) => OverMount::BindFileOnLink(sb.outside().join("secret.f").to_string_lossy().to_string(), dst.clone()),
         };
         rep.target = target;
         rep.plan = format!("{:?}", plan);
         rep.on_the_way = on_the_way;
-        let mount_sources: Vec<Ident> = ["/proc/1", "/proc/version"].iter().filter_map(|p| fstatat(libc::AT_FDCWD, p.as_bytes(), true).ok().map(|s| s.id)).chain([sb.outside().join("dir"), sb.outside().join("secret.f")].iter().filter_map(|p| fstatat(libc::AT_FDCWD, p.as_os_str().as_encoded_bytes(), true).ok().map(|s| s.id))).collect();
+        let mount_sources: Vec<Ident> = ["/proc/1", "/proc/version"].iter().filter_map(|p| fstatat(libc::AT_FDCWD, p.as_bytes(), true).ok().map(|s| s.id)).chain([sb.outside().join("dir"), sb.outside().join("secret.f"), sb.outside().join("evil")].iter().filter_map(|p| fstatat(libc::AT_FDCWD, p.as_os_str().as_encoded_bytes(), true).ok().map(|s| s.id))).collect();
         {
             let mut st = state.lock().unwrap();
             st.plan = plan;
@@ -1056,6 +1073,12 @@ pub fn race_judge(case: &RaceCase, rep: &RaceReport, stats: &mut Stats) -> Resul
             if !same_as_baseline && r.errno != Some(libc::EAGAIN) {
                 return Err(mk(format!("race-affected:{}:{:?}:{}", if rep.visible { "elsewhere" } else { "private" }, r.mode, r.out), "the mount cannot be seen by this lookup, yet the outcome differs from the un-raced call".into()));
             }
+        } else if !same_as_baseline && r.errno == Some(libc::ELOOP) && rep.plan.starts_with("BindLinkOnLink") {
+            // the mount source is itself a symlink: a final open that meets it with the
+            // forced O_NOFOLLOW is refused by the kernel (ELOOP) before the library can
+            // look at the mount id; nothing is returned, which is all the property asks
+            // of a mount that appears mid-lookup
+            stats.class("race:mounted-symlink-refused-ELOOP");
         } else if !same_as_baseline && r.errno != Some(libc::EXDEV) && r.errno != Some(libc::EAGAIN) {
             return Err(mk(format!("race-wrong-errno:{:?}:{}", r.mode, r.out), "a racing over-mount may only turn the call into EXDEV".into()));
         } else if r.errno == Some(libc::EXDEV) {
@@ -1110,7 +1133,7 @@ fn replay(_ctx: &Ctx, check_name: &str, case: &Value) -> Result<(), Fail> {
 pub const PROP: Prop = Prop {
     id: "C06",
     level: "exploration",
-    rule: "in a private mount namespace: 1-4 over-mounts {tmpfs, bind of a foreign file/dir, bind of another procfs file/dir} on entries drawn from {uptime, sys, sys/kernel, sys/kernel/ostype, self, thread-self, mounts, net, <pid>, <pid>/status, fd, fd/200 (magic-link), cwd, ns, ns/mnt, attr, attr/current, environ, mounts, net, task, task/<tid>, task/<tid>/status|fd|cwd} (links are covered through an O_PATH|O_NOFOLLOW descriptor) x handle kind {ProcfsHandle::new(), try_from_fd of fsopen+fsmount / open_tree clone / recursive clone made before or after the mounts / plain open(\"/proc\"), C API global} x six kernel configurations (openat2 / fsopen / open_tree -> ENOSYS) x 4-16 calls {open, open_follow, readlink} x base x sub-path x flags. The harness knows which handle can see the mounts (it made both) and which dentries each request walks through (self, thread-self, net, mounts expanded). Oracle: a successful result is never an over-mount source, equals by (dev,ino)/link body the same lookup on a pristine descriptor of the same procfs instance made before the mounts, and non-following results are on procfs; a visible over-mount on the way => EXDEV; otherwise the call behaves exactly as on the pristine view. non-trivial = the request walks through an over-mounted entry; distinct by (request, handle, kcfg, mounted set). Second driver \"racing-mount\": one non-following call (open / readlink) x handle kind x kernel configuration x one over-mount on a dentry the call walks through (or, 1 in 2, an unrelated entry); the syscall gate counts the N system calls the un-raced call makes and the case is re-run 3N+1 times: the mount appears just before syscall k and stays / appears before k and is removed before k+1 / is in place from the start and removed before k, for every k. Oracle: a successful result is the object the un-raced call returns ((dev,ino) while that descriptor is held open; link body), on procfs, never the mount source; handles on a private instance and mounts off the way: outcome identical to the un-raced call; host-procfs handles: identical or EXDEV. non-trivial there = the mount was applied and is on the way; distinct by (call, handle, kcfg, mount, mode, k)",
+    rule: "in a private mount namespace: 1-4 over-mounts {tmpfs, bind of a foreign file/dir, bind of another procfs file/dir, bind of a foreign symlink whose body resolves inside procfs, bind of a procfs symlink or magic-link itself} on entries drawn from {uptime, sys, sys/kernel, sys/kernel/ostype, self, thread-self, mounts, net, <pid>, <pid>/status, fd, fd/200 (magic-link), cwd, ns, ns/mnt, attr, attr/current, environ, mounts, net, task, task/<tid>, task/<tid>/status|fd|cwd} (links are covered through an O_PATH|O_NOFOLLOW descriptor) x handle kind {ProcfsHandle::new(), try_from_fd of fsopen+fsmount / open_tree clone / recursive clone made before or after the mounts / plain open(\"/proc\"), C API global} x six kernel configurations (openat2 / fsopen / open_tree -> ENOSYS) x 4-16 calls {open, open_follow, readlink} x base x sub-path x flags. The harness knows which handle can see the mounts (it made both) and which dentries each request walks through (self, thread-self, net, mounts expanded). Oracle: a successful result is never an over-mount source, equals by (dev,ino)/link body the same lookup on a pristine descriptor of the same procfs instance made before the mounts, and non-following results are on procfs; a visible over-mount on the way => EXDEV; otherwise the call behaves exactly as on the pristine view. non-trivial = the request walks through an over-mounted entry; distinct by (request, handle, kcfg, mounted set). Second driver \"racing-mount\": one non-following call (open / readlink) x handle kind x kernel configuration x one over-mount on a dentry the call walks through (or, 1 in 2, an unrelated entry); the syscall gate counts the N system calls the un-raced call makes and the case is re-run 3N+1 times: the mount appears just before syscall k and stays / appears before k and is removed before k+1 / is in place from the start and removed before k, for every k. Oracle: a successful result is the object the un-raced call returns ((dev,ino) while that descriptor is held open; link body), on procfs, never the mount source; handles on a private instance and mounts off the way: outcome identical to the un-raced call; host-procfs handles: identical or EXDEV. non-trivial there = the mount was applied and is on the way; distinct by (call, handle, kcfg, mount, mode, k)",
     assumptions: &["kernel reports mount ids (6.18)", "racing mounts are placed at the boundaries between the library's system calls (every one of them, enumerated); a mount that lands while the kernel is inside one openat2 walk is not controllable from user space", "identity comparison for ProcfsHandle::new()/C API is only possible when they fall back to the host procfs"],
     lanes: |_| 16,
     run_lane,
